@@ -5,10 +5,14 @@
              add_expr   = infixl(add_op, mul_expr)      add_op = '+' | '-'
              mul_expr   = infixl(mul_op, unary_expr)    mul_op = '*' | '/'
              unary_expr = dispatch{'-' => '-' value_expr, _ => value_expr}
-             infixl(op, x) = separated_foldl1(x, space0 op space0, Binary)
+             infixl(op, x) = the loop of separated_foldl1(x, space0 op space0, Binary)
    Since fix ac8b801 value_expr carries the number of enclosing parentheses and refuses to
-   nest deeper than MAX_EXPR_DEPTH = 100; the model has no such bound (token lists of the
-   correspondence run stay far below it; the bound itself belongs to C06).
+   nest deeper than MAX_EXPR_DEPTH = 100, and since fix 5c35bc3 (C06-F23) every parser of
+   expr.rs returns the height of its tree and refuses to build a tree taller than
+   MAX_EXPR_HEIGHT = 256 (infixl became a loop of its own that stops at the operator which
+   would make the tree too tall); the model has neither bound (token lists of the
+   correspondence run stay far below them; the bounds themselves belong to C06 and to the
+   text-level model Model/ParseExpr.v).
    Every failure inside is a backtracking one (there is no cut_err), so one PFail suffices.
    Characters and blanks are the business of the text-level parser (property C05); the
    correspondence run lexes the generated text and checks this model against the real parser. *)
